@@ -81,6 +81,19 @@ func run(c *vk.Ctx, can *rig.Canary, sc scen, idx int) {
 				return true
 			})
 		}
+	case "slow-refused-send-across-the-deadline":
+		// an application handler that takes 0.2 N to decide and then refuses the message marked for it (it holds the send
+		// path from 0.85 N to 1.05 N: the Heartbeat due at N can still go out within N + N/10)
+		cfg.AfterRun = func(h *simplefixgo.DefaultHandler, s *session.Session) {
+			h.HandleOutgoing("Y", func(m simplefixgo.SendingMessage) bool {
+				b, _ := m.ToBytes()
+				if bytes.Contains(b, []byte("262=slow-refuse")) {
+					time.Sleep(N / 5)
+					return false
+				}
+				return true
+			})
+		}
 	case "accepted-stage-observer-returns-false":
 		// an application observer of transmitted messages, registered before the logon; what it returns is documented as ignored
 		cfg.OnSession = func(h *simplefixgo.DefaultHandler, s *session.Session) {
@@ -339,6 +352,18 @@ func run(c *vk.Ctx, can *rig.Canary, sc scen, idx int) {
 			c.Count("resend_requests", 1)
 			time.Sleep(N / 2)
 		}
+	case "slow-refused-send-across-the-deadline":
+		// the application starts a send 0.85 N after the previous outbound message; its own handler thinks about it
+		// until 1.05 N and refuses it: nothing was transmitted, the Heartbeat that fell due meanwhile is still owed
+		for time.Now().Before(end) {
+			target := lastOut().Add(N * 85 / 100)
+			if d := time.Until(target); d > 0 {
+				time.Sleep(d)
+			}
+			_ = l.S.Send(fixgen.CreateMarketDataRequestReject("slow-refuse"))
+			c.Count("refused_send_attempts", 1)
+			time.Sleep(N / 10)
+		}
 	case "peer-testrequest-mid-period":
 		// the peer sends a TestRequest 0.6 N after the previous outbound message: the Heartbeat that answers it is an
 		// outbound message like any other, the next unsolicited one is due N after it
@@ -491,7 +516,7 @@ func main() {
 	var scs []scen
 	for _, role := range []rig.Role{rig.Acceptor, rig.Initiator} {
 		for _, n := range ns {
-			for _, p := range []string{"idle", "send-just-before", "send-inside-last-polling-step", "counter-store-fault-on-one-send", "accepted-stage-observer-returns-false", "resend-batch-refused-midway", "peer-testrequest-mid-period", "send-at-deadline", "send-just-after", "bursts-then-idle", "half-period-sends", "pair-just-under-a-tenth-apart", "resend-replay-mid-period", "handler-send-mid-period", "peer-answers-testrequests-late", "observers-removed-after-logon", "refused-sends-filter-registered-before-logon", "refused-sends-filter-registered-after-logon"} {
+			for _, p := range []string{"idle", "send-just-before", "send-inside-last-polling-step", "counter-store-fault-on-one-send", "accepted-stage-observer-returns-false", "resend-batch-refused-midway", "peer-testrequest-mid-period", "slow-refused-send-across-the-deadline", "send-at-deadline", "send-just-after", "bursts-then-idle", "half-period-sends", "pair-just-under-a-tenth-apart", "resend-replay-mid-period", "handler-send-mid-period", "peer-answers-testrequests-late", "observers-removed-after-logon", "refused-sends-filter-registered-before-logon", "refused-sends-filter-registered-after-logon"} {
 				scs = append(scs, scen{role, n, p, periods[n], 0})
 			}
 		}
